@@ -122,10 +122,76 @@ def mutate_value(v: Any, field: str, node: Any) -> Any:
     raise Skip(f"no mutator for {type(v).__name__} in field {field}")
 
 
+def expr_variants(expr: Any) -> list[tuple[str, Any]]:
+    """Semantically different variants of a scalar expression: other reduction
+    operation, other reduction bound, other cast dtype, other constant."""
+    import pymbolic.primitives as prim
+    from pytato import reductions as red
+    from pytato.scalar_expr import IdentityMapper, Reduce, TypeCast
+    out: list[tuple[str, Any]] = []
+
+    class M(IdentityMapper):  # type: ignore[misc,type-arg]
+        def __init__(self, what: str):
+            super().__init__()
+            self.what = what
+            self.done = False
+
+        def map_reduce(self, e: Any, *a: Any, **k: Any) -> Any:
+            if not self.done and self.what == "reduce-op":
+                self.done = True
+                op = red.MaxReductionOperation() if not isinstance(
+                    e.op, red.MaxReductionOperation) else red.SumReductionOperation()
+                return Reduce(e.inner_expr, op, e.bounds)
+            if not self.done and self.what == "reduce-bounds":
+                self.done = True
+                from constantdict import constantdict
+                b = dict(e.bounds)
+                k0 = sorted(b)[0]
+                lo, hi = b[k0]
+                b[k0] = (lo, hi + 1)
+                return Reduce(e.inner_expr, e.op, constantdict(b))
+            return super().map_reduce(e, *a, **k)
+
+        def map_type_cast(self, e: Any, *a: Any, **k: Any) -> Any:
+            if not self.done and self.what == "typecast":
+                self.done = True
+                dt = np.dtype(np.float32) if e.dtype != np.float32 else np.dtype(np.float64)
+                return TypeCast(dt, e.inner_expr)
+            return super().map_type_cast(e, *a, **k)
+
+        def map_constant(self, e: Any, *a: Any, **k: Any) -> Any:
+            if not self.done and self.what == "constant" and not isinstance(e, bool) \
+                    and isinstance(e, (int, float, complex, np.number)):
+                self.done = True
+                return type(e)(e + 1)
+            return e
+
+        def map_comparison(self, e: Any, *a: Any, **k: Any) -> Any:
+            if not self.done and self.what == "comparison-op":
+                self.done = True
+                return prim.Comparison(e.left, "<=" if e.operator != "<=" else "<", e.right)
+            return super().map_comparison(e, *a, **k)
+    for what in ("reduce-op", "reduce-bounds", "typecast", "constant", "comparison-op"):
+        try:
+            m = M(what)
+            ne = m(expr)
+            if m.done:
+                out.append((what, ne))
+        except Exception:  # noqa: BLE001
+            continue
+    return out
+
+
 def field_mutants(node: Any) -> list[tuple[str, Any]]:
     """[(field path, mutated node)] -- one entry per (possibly nested) field."""
     t = reflect.T()
     out: list[tuple[str, Any]] = []
+    if type(node).__name__ == "IndexLambda":
+        for what, ne in expr_variants(node.expr):
+            try:
+                out.append((f"expr:{what}", reflect.replace_field(node, expr=ne)))
+            except Exception:  # noqa: BLE001
+                continue
     for name, v in reflect.field_items(node):
         if isinstance(v, (t["CSRMatrix"], t["DistributedSend"])):
             for n2, v2 in reflect.field_items(v):
